@@ -203,7 +203,7 @@ def send (k : Kcp) (buffer : Bytes) : SendRes :=
   let k1 := { k with snd_queue := q1 }
   if k.stream ≠ 0 ∧ buf.length = 0 then ⟨k1, 0, false⟩ else
   let count := if buf.length ≤ mss then 1 else (buf.length + mss - 1) / mss
-  if count > 255 then ⟨k1, -2, false⟩ else
+  if count > 255 then ⟨k, -2, false⟩ else   -- refused before the stream append touches the queue
   let count := if count = 0 then 1 else count
   -- `newSegment(size)`: `Get()[:size]` panics when size > cap (mtuLimit)
   if min buf.length mss > mtuLimit then ⟨k1, 0, true⟩ else
